@@ -793,7 +793,7 @@ def run(chk):
                  "..", "...", ".. | .a", ".a...", ".[]", ".[]?", ".a[]?.b?", "$x", "$x-1", "\"a\\\"b\"", "\"a\\nb\"", "\"\"", "\"unterminated", "#only a comment", "# c\n.a", ".a # c",
                  "true", "TRUE", "True", "nUlL", "~", "0x1F", "0X1f", "1.5", "1e3", "1.5e-3", "-1", "-1.5", "- 1", ".a | -1", "[-1, -2]", ".[-1]", ".[1:-1]", ".[:2]", ".[1:]", ".a[1:2]",
                  "to_yaml", "to_yaml(3)", "toyaml", "@yaml", "@base64d", "@base64", "from_json", "flatten(2)", "flatten", "parent(2)", "parent", "line_comment", "lineComment", "head_comment=\"x\"",
-                 ".a style=\"x\"", ".a tag = \"!!str\"", ".a tag==\"x\"", "comments=\"x\"", ". comments |= \"x\"", "env(HOME)", "strenv(HOME)", "envsubst", "envsubst(ne)", "envsubst(ne, nu)",
+                 ".a style=\"x\"", ".a tag = \"!!str\"", ".a tag==\"x\"", "comments=\"x\"", ". comments |= \"x\"", "env(HOME)", "strenv(HOME)", "envsubst",
                  "with_entries(.)", "with(.a;.b)", "sortKeys(.)", "sort_keys(..)", "splitDoc", "split_doc", "document_index", "di", "fi", "file_index", "filename", "fileName",
                  ".\"a b\"", ".\"a\"?", ".\"a\".b", ".a.\"b c\"[0]", "{\"a\":1}", "{\"a\": 1 }", "{ .a : .b }", "[ ]", "{ }", "[]", "{}", "( )", "()",
                  "\u00e9", ".\u00e9", ".a\u4e2d.b", "\"\u00e9\u4e2d\"", "@", "!", "&", ".a & .b", "`", ".a;.b", ".a ; .b", "a", "abc", ".a as $x | $x", ".a ref $x | $x",
